@@ -23,8 +23,8 @@ pub fn def() -> PropDef {
     panic_policy: PanicPolicy::Count,
     rule: "random ASCII source trees with consistent leaf maps (as C02); for each column setting the non-final chunk stream and map() of the same object are turned into attribution tables (reference decoder) and compared at every character; non-trivial = tree has a composite and >=1 mapped and >=1 unmapped character was compared; distinct = spec fingerprint",
     cases: |t| match t {
-      Tier::Quick => 30_000,
-      Tier::Thorough => 600_000,
+      Tier::Quick => 150_000,
+      Tier::Thorough => 2_000_000,
     },
   }
 }
